@@ -103,7 +103,9 @@ def r2_false_implies_reported(ctx):
         for c in clears:
             if qual.endswith('_is_valid_code') and c.kind == 'stmt' and path_of(c.ast.targets[0]) == 'bValidCode':
                 continue   # initialisation of the accumulator, not a verdict
-            path = g.find_path(g.entry, lambda n: n is c, blocked=lambda n: reports(n) or n.id in code_tests)
+            # the F edge of `self._is_valid_code(...)` is a failed code check (reported inside the callee)
+            path = g.find_path(g.entry, lambda n: n is c, blocked=reports,
+                               edge_ok=lambda a, l, b: not (a.id in code_tests and l == 'F'))
             note = None
             ok = path is None
             if not ok:
@@ -222,7 +224,7 @@ def r3_sources_and_atoms(ctx):
                     if A.ev(s.test, env, funcs):
                         acc = True
                 except A.NotClosed as e:
-                    raise AnalysisError('_is_valid_code condition not closed: %s' % e)
+                    bad.append('accepting condition `%s` depends on %s, not only on the inline list and the external set' % (norm(s.test), e))
             want = (not codes and ext is None) or member or (ext is not None and extvalid)
             if acc != want:
                 bad.append('codes=%s external=%s member=%s external-valid=%s -> %s' % (codes, ext, member, extvalid, 'accepted' if acc else 'rejected'))
